@@ -113,3 +113,8 @@ def canaries(tier):
         {'name': 'logqp-sums-over-batch', 'job': 'logqp',
          'patches': [('torchsde._core.base_sde', "        u = misc.stable_division(f - h, g)\n        f_logqp = .5 * (u ** 2).sum(dim=1, keepdim=True)\n        return torch.cat([f, f_logqp], dim=1)\n\n    def g_diagonal", "        u = misc.stable_division(f - h, g)\n        f_logqp = .5 * (u ** 2).sum().reshape(1, 1).expand(y.size(0), 1) if False else .5 * (u ** 2).sum(dim=0, keepdim=True).sum(dim=1, keepdim=True) + 0 * (u ** 2).sum(dim=1, keepdim=True)\n        return torch.cat([f, f_logqp], dim=1)\n\n    def g_diagonal")]},
     ]
+
+
+def native_replay(ob):
+    from props.base import run_native
+    return run_native('c20')
